@@ -506,4 +506,116 @@ theorem CPage.iterRevM_eq (p : CPage) (h : CPageOk p) : p.iterRevM = (pageMember
   have he := h.2.1 _ (List.fst_mem_of_mem_zipIdx hei.1)
   simp only [Function.comp]
   rw [EIter.toListRev_eq _ (EIter.new_ok _ he), EIter.toList_eq _ (EIter.new_ok _ he), List.map_reverse]
+
+/-! ### `BitPage::iter_after(value)` over the element machine -/
+
+theorem mem_elemMembers {b e x : Nat} (h : x ∈ elemMembers b e) : b ≤ x ∧ x < b + 64 := by
+  rw [elemMembers_eq] at h
+  simp only [List.mem_map, List.mem_filter, List.mem_range] at h
+  obtain ⟨a, ⟨ha, _⟩, rfl⟩ := h
+  omega
+
+/-- one element of `iter_after`: the start element is iterated by `Iter::from(elem, (value & 63) + 1)`,
+the later ones by `Iter::new`; either way the members of the word that are `> value & 511` -/
+theorem iterAfterElem_eq (v e i : Nat) (he : e < 2 ^ 64) :
+    (iterAfterElem v (elementIndex v) (e, i)).toList.map (fun idx => (i + elementIndex v) * 64 + idx) =
+      (elemMembers ((i + elementIndex v) * 64) e).filter (fun x => decide (v % 512 < x)) := by
+  unfold iterAfterElem elementIndex
+  simp only []
+  by_cases hi : i = 0
+  · subst hi
+    rw [if_pos (by simp), EIter.toList_eq _ (EIter.from_ok e _ he), EIter.window_from, elemMembers_eq,
+      List.filter_map, List.filter_filter]
+    have hf : (List.range 64).filter (fun i => decide (v % 64 + 1 ≤ i) && e.testBit i) =
+        (List.range 64).filter (fun a => ((fun x => decide (v % 512 < x)) ∘
+          (fun x => x + (0 + v % 512 / 64) * 64)) a && e.testBit a) := by
+      apply List.filter_congr
+      intro a _
+      simp only [Function.comp]
+      congr 1
+      apply decide_eq_decide.mpr
+      omega
+    rw [hf]
+    apply List.map_congr_left
+    intro a _; omega
+  · have hne : (v % 512 / 64 == i + v % 512 / 64) = false := by
+      simp; omega
+    rw [hne]
+    simp only [Bool.false_eq_true, if_false]
+    have := elemIter_eq e (i + v % 512 / 64) he
+    rw [this]
+    symm
+    apply List.filter_eq_self.mpr
+    intro x hx
+    have := mem_elemMembers hx
+    simp only [decide_eq_true_eq]
+    omega
+
+theorem getD_drop' (es : List Nat) (n i : Nat) : (es.drop n).getD i 0 = es.getD (n + i) 0 := by
+  simp [List.getD_eq_getElem?_getD, List.getElem?_drop]
+
+/-- `BitPage::iter_after(value)` collected forwards: the members of the page that are `> value & 511`,
+ascending -/
+theorem CPage.iterAfterM_eq (p : CPage) (v : Nat) (h : CPageOk p) :
+    p.iterAfterM v = (pageMembers p.abs.bits).filter (fun x => decide (v % 512 < x)) := by
+  have hst := elementIndex_lt v
+  unfold CPage.iterAfterM
+  simp only []
+  rw [flatMap_filter']
+  have h1 : (p.elems.drop (elementIndex v)).zipIdx.flatMap (fun ei => if (ei.1 != 0) = true then
+        (iterAfterElem v (elementIndex v) ei).toList.map (fun idx => (ei.2 + elementIndex v) * 64 + idx)
+        else []) =
+      (p.elems.drop (elementIndex v)).zipIdx.flatMap (fun ei =>
+        (fun i e => (elemMembers ((i + elementIndex v) * 64) e).filter (fun x => decide (v % 512 < x)))
+          ei.2 ei.1) := by
+    apply flatMap_congr'
+    intro ei hei
+    have he := h.2.1 _ (List.mem_of_mem_drop (List.fst_mem_of_mem_zipIdx hei))
+    by_cases hz : ei.1 = 0
+    · simp [hz, elemMembers_zero]
+    · rw [if_pos (by simpa using hz)]
+      exact iterAfterElem_eq v ei.1 ei.2 he
+  rw [h1, zipIdx_flatMap (fun i e => (elemMembers ((i + elementIndex v) * 64) e).filter
+    (fun x => decide (v % 512 < x))) _ 0, List.length_drop, h.1]
+  unfold pageMembers
+  rw [List.filter_flatMap]
+  have h8 : 8 = elementIndex v + (8 - elementIndex v) := by omega
+  conv => rhs; rw [h8, List.range_add, List.flatMap_append, List.flatMap_map]
+  have hnil : (List.range (elementIndex v)).flatMap (fun a =>
+      (elemMembers (a * 64) (p.abs.bits / 2 ^ (a * 64) % 2 ^ 64)).filter
+        (fun x => decide (v % 512 < x))) = [] := by
+    rw [List.flatMap_eq_nil_iff]
+    intro a ha
+    simp only [List.mem_range] at ha
+    apply List.filter_eq_nil_iff.mpr
+    intro x hx
+    have := mem_elemMembers hx
+    unfold elementIndex at ha
+    simp only [decide_eq_true_eq]
+    omega
+  rw [hnil, List.nil_append]
+  apply flatMap_congr'
+  intro i _
+  show (elemMembers ((i + 0 + elementIndex v) * 64) _).filter _ =
+    (elemMembers ((elementIndex v + i) * 64) (pack p.elems / 2 ^ ((elementIndex v + i) * 64) % 2 ^ 64)).filter _
+  rw [pack_elem _ h.2.1, getD_drop', Nat.add_zero, Nat.add_comm i]
+
+theorem CPage.iterAfterRevM_eq (p : CPage) (v : Nat) (h : CPageOk p) :
+    p.iterAfterRevM v = ((pageMembers p.abs.bits).filter (fun x => decide (v % 512 < x))).reverse := by
+  rw [← CPage.iterAfterM_eq p v h]
+  unfold CPage.iterAfterM CPage.iterAfterRevM
+  simp only []
+  rw [List.reverse_flatMap]
+  apply flatMap_congr'
+  intro ei hei
+  rw [List.mem_reverse, List.mem_filter] at hei
+  have he := h.2.1 _ (List.mem_of_mem_drop (List.fst_mem_of_mem_zipIdx hei.1))
+  have hok : (iterAfterElem v (elementIndex v) ei).Ok := by
+    unfold iterAfterElem
+    simp only []
+    split
+    · exact EIter.from_ok _ _ he
+    · exact EIter.new_ok _ he
+  simp only [Function.comp]
+  rw [EIter.toListRev_eq _ hok, EIter.toList_eq _ hok, List.map_reverse]
 end FontVerif.IntSet
